@@ -62,6 +62,10 @@ def check(tier, seed):
                 att.append((ok, bad + list(evs)))
             sc['script']['attempts'] = att
             scs.append(sc)
+        # fixed corpus: a late duplicate of the FIRST request's answer in front of the second one's own answer
+        fixed = S.fixed_late_duplicate_scenarios()
+        scs += [sc for _, sc in fixed]
+        res.notes['fixed_late_duplicate_histories'] = len(fixed)
         tie = RC.model_ties([S.model_cmd(sc, sk) for sc in scs])
         res.notes['deadline_ties_dropped'] = sum(tie)
         for sc in [sc for sc, t in zip(scs, tie) if not t]:
